@@ -110,7 +110,7 @@ def rep_count(rep):
     return int(rep[1]) if isinstance(rep, (tuple, list)) else int(rep)
 
 
-def build(prog, rep=1, acq_from=None, root=None):
+def build(prog, rep=1, acq_from=None, root=None, observe=None):
     """Builds a DeclarativeCircuit from a program through DeclarativeCircuit.add only.
     A block entry may carry a fourth element 'top': its measurements are then created against the registry
     of the outermost circuit instead of the block's own registry."""
@@ -124,11 +124,15 @@ def build(prog, rep=1, acq_from=None, root=None):
             link = None if rel is None else RelationLink(ent[rel[1]], RT[rel[0]])
             ent.append(circ.add(make_op(kind, q, link, acq_from or circ, tag)))
             subs.append(None)
+            if observe is not None:
+                observe(circ)
         elif e[0] == 'sub':
             mode = e[3] if len(e) > 3 else None
-            sb = build(e[2], rep=e[1], acq_from=(root if mode == 'top' else acq_from), root=root)
+            sb = build(e[2], rep=e[1], acq_from=(root if mode == 'top' else acq_from), root=root, observe=observe)
             ent.append(circ.add(sb.circ))
             subs.append(sb)
+            if observe is not None:
+                observe(circ)
         else:
             raise ValueError('unknown entry %r' % (e,))
     return Built(tuple(prog), circ, ent, subs, rep)
